@@ -7,6 +7,7 @@ import (
 	"sort"
 	"strings"
 	"sync"
+	"time"
 
 	"github.com/notaryproject/notation-core-go/revocation"
 	corecrl "github.com/notaryproject/notation-core-go/revocation/crl"
@@ -34,8 +35,12 @@ type ctlDecision struct {
 //
 //	G: OCSP Good (one exchange)         R: OCSP Revoked (one exchange)
 //	F: OCSP error, CRL clean (fallback) L: OCSP error, CRL lists   X: OCSP error, CRL failing
+//	I: OCSP Revoked with an invalidity date one hour after the world's reference signing time: OK for a caller that
+//	   supplies that signing time, Revoked for a caller that supplies none (use patternFor to resolve it per caller)
 func patternClasses(p byte) (ocspCls, crlCls int) {
 	switch p {
+	case 'I':
+		return 4, 0
 	case 'G':
 		return 0, 0
 	case 'R':
@@ -88,17 +93,29 @@ func isPanic(d any) bool {
 	return ok && cd.kind == "panic"
 }
 
+// patternFor resolves the caller-dependent pattern letter into the classes the reference model understands.
+func patternFor(p byte, signingTimeSet bool) (ocspCls, crlCls int) {
+	if p == 'I' {
+		if signingTimeSet {
+			return 0, 0 // exempted: behaves like Good
+		}
+		return 1, 0
+	}
+	return patternClasses(p)
+}
+
 type c17Scenario struct {
-	id      string // property the scenario reports under (C17, or C12 for the completion-order scenarios)
-	name    string
-	pattern string // one letter per non-root certificate
-	entry   string // validate | checkstatus
-	callers int
-	cache   bool
-	inject  int    // max injected panics / cancellations
-	fetcher string // http | fake (caller-supplied fetcher that parks)
-	once    sync.Once
-	w       *revWorld
+	id       string // property the scenario reports under (C17, or C12 for the completion-order scenarios)
+	name     string
+	pattern  string // one letter per non-root certificate
+	entry    string // validate | checkstatus
+	callers  int
+	cache    bool
+	inject   int    // max injected panics / cancellations
+	fetcher  string // http | fake (caller-supplied fetcher that parks)
+	stCaller []bool // per caller: supplies the reference signing time (default: none)
+	once     sync.Once
+	w        *revWorld
 }
 
 func (s *c17Scenario) world() *revWorld {
@@ -131,8 +148,8 @@ func c17Scenarios(tier mc.Tier) []mc.Scenario {
 	}
 	for _, p := range pats {
 		inj := 1
-		if tier == mc.Thorough && len(p) <= 3 {
-			inj = 2
+		if (tier == mc.Thorough && len(p) <= 3) || len(p) <= 2 {
+			inj = 2 // two panics in one call (a one-slot panic channel deadlocks only then)
 		}
 		if p == "FFFF" {
 			inj = 0 // 2 520 interleavings; injections are covered on the smaller patterns
@@ -140,7 +157,11 @@ func c17Scenarios(tier mc.Tier) []mc.Scenario {
 		add(&c17Scenario{name: "validate-" + p, pattern: p, entry: "validate", callers: 1, inject: inj, fetcher: "http"})
 	}
 	for _, p := range []string{"G", "GG", "GR", "GGG", "GGGG"} {
-		add(&c17Scenario{name: "checkstatus-" + p, pattern: p, entry: "checkstatus", callers: 1, inject: 1, fetcher: "http"})
+		inj := 1
+		if len(p) == 2 {
+			inj = 2
+		}
+		add(&c17Scenario{name: "checkstatus-" + p, pattern: p, entry: "checkstatus", callers: 1, inject: inj, fetcher: "http"})
 	}
 	// caller-supplied fetcher that panics (the statement's example) and a cache in the path
 	add(&c17Scenario{name: "validate-fakefetcher-FF", pattern: "FF", entry: "validate", callers: 1, inject: 1, fetcher: "fake"})
@@ -150,6 +171,10 @@ func c17Scenarios(tier mc.Tier) []mc.Scenario {
 	add(&c17Scenario{name: "two-callers-GG", pattern: "GG", entry: "validate", callers: 2, fetcher: "http"})
 	add(&c17Scenario{name: "two-callers-cache-F", pattern: "F", entry: "validate", callers: 2, cache: true, fetcher: "http"})
 	add(&c17Scenario{name: "two-callers-cache-L", pattern: "L", entry: "validate", callers: 2, cache: true, fetcher: "http"})
+	// two callers of one validator with different signing times: per-call options must not leak between calls
+	add(&c17Scenario{name: "two-callers-different-signing-times-I", pattern: "I", entry: "validate", callers: 2, fetcher: "http", stCaller: []bool{false, true}})
+	add(&c17Scenario{name: "two-callers-different-signing-times-IF", pattern: "IF", entry: "validate", callers: 2, fetcher: "http", stCaller: []bool{true, false}})
+	add(&c17Scenario{name: "one-caller-signing-time-I", pattern: "I", entry: "validate", callers: 1, fetcher: "http", stCaller: []bool{true}})
 	if tier == mc.Thorough {
 		add(&c17Scenario{name: "two-callers-cache-FG", pattern: "FG", entry: "validate", callers: 2, cache: true, fetcher: "http"})
 		add(&c17Scenario{name: "two-callers-GGG", pattern: "GGG", entry: "validate", callers: 2, fetcher: "http"})
@@ -172,9 +197,18 @@ func (s *c17Scenario) body(c *mc.Ctx) {
 	answerFor := func(src source) netsim.Answer {
 		oc, cc := patternClasses(s.pattern[src.cert])
 		if src.kind == "ocsp" {
+			if oc == 4 {
+				return w.serveOCSP(src, ocspByName("revoked-invalidity+1/issuer"))
+			}
 			return w.serveOCSP(src, ocspByName(ocspClassNames[oc]))
 		}
 		return w.serveCRL(src, crlByName(crlClassNames[cc]))
+	}
+	stOf := func(k int) (time.Time, bool) {
+		if k < len(s.stCaller) && s.stCaller[k] {
+			return w.ow[0].st, true
+		}
+		return time.Time{}, false
 	}
 	tr := &netsim.Transport{}
 	tr.Handler = func(r *netsim.Request, raw *http.Request) netsim.Answer {
@@ -239,7 +273,8 @@ func (s *c17Scenario) body(c *mc.Ctx) {
 			if e != nil {
 				panic(mc.HarnessError{Msg: e.Error()})
 			}
-			results[k].res, results[k].err = v.ValidateContext(cctx, revocation.ValidateContextOptions{CertChain: chain})
+			st, _ := stOf(k)
+			results[k].res, results[k].err = v.ValidateContext(cctx, revocation.ValidateContextOptions{CertChain: chain, AuthenticSigningTime: st})
 		case "checkstatus":
 			results[k].res, results[k].err = revocsp.CheckStatus(revocsp.Options{CertChain: chain, HTTPClient: tr.Client()})
 		}
@@ -263,7 +298,8 @@ func (s *c17Scenario) body(c *mc.Ctx) {
 						results[k].pan = r
 					}
 				}()
-				results[k].res, results[k].err = sharedV.ValidateContext(context.WithValue(ctx, callerKey{}, k), revocation.ValidateContextOptions{CertChain: chain})
+				st, _ := stOf(k)
+				results[k].res, results[k].err = sharedV.ValidateContext(context.WithValue(ctx, callerKey{}, k), revocation.ValidateContextOptions{CertChain: chain, AuthenticSigningTime: st})
 			}(k)
 		}
 		wg.Wait()
@@ -344,7 +380,8 @@ func (s *c17Scenario) body(c *mc.Ctx) {
 			c.Outcome("cancelled")
 			// fail closed: OK only with evidence, i.e. only where the reference also says OK
 			for i := 0; i < n-1; i++ {
-				oc, cc := patternClasses(s.pattern[i])
+				_, stSet := stOf(k)
+				oc, cc := patternFor(s.pattern[i], stSet)
 				want := refCert(i, []int{oc}, []int{cc}[:w.c[i]], entryName(s.entry))
 				if r.res[i] == nil {
 					c.Fail(sigBase+" nil result after cancellation", "cert %d", i)
@@ -357,7 +394,8 @@ func (s *c17Scenario) body(c *mc.Ctx) {
 		default:
 			c.Outcome("completed")
 			for i := 0; i < n-1; i++ {
-				oc, cc := patternClasses(s.pattern[i])
+				_, stSet := stOf(k)
+				oc, cc := patternFor(s.pattern[i], stSet)
 				want := refCert(i, []int{oc}, []int{cc}[:w.c[i]], entryName(s.entry))
 				if why := compareCert(r.res[i], want, true); why != "" {
 					c.Fail(sigBase+" schedule-dependent-or-wrong-result: "+stripDigits(why), "caller %d cert %d under schedule %v: %s", k, i, released, why)
